@@ -1012,11 +1012,11 @@ class CloneAnalysis:
             if rel == 'parent':
                 ok = self._parent_rhs(st, tgt, rhs, cn, rl.origin, stmt_atoms)
             else:
-                ok = False
-                if stmt_atoms:
-                    self.undecided(f, st, st, f"`{rel}` is rebuilt only under a condition the rule does not interpret", 'relations')
-                else:
-                    ok = self._list_rhs(st, tgt, rel, rhs, cn, rl.origin)
+                ok = self._list_rhs(st, tgt, rel, rhs, cn, rl.origin)
+                if ok and stmt_atoms:
+                    self.undecided(f, st, st, f"`{rel}` is rebuilt only under a condition the rule does not interpret "
+                                              f"(`{' and '.join(facts.cond_texts(stmt_atoms))[:80]}`)", 'relations')
+                    ok = False
             if ok:
                 good.setdefault(rel, st)
         problems = any(k in ('refute', 'undecided') for c, k, *_ in self.facts if c in ('relations', 'receivers'))
@@ -1158,8 +1158,9 @@ class CloneAnalysis:
         if lk is None or not match(f"{x}.id", lk[0]):
             el = L.lab(comp.elt, cn, {x: Lab('LINK')})
             if isinstance(comp.elt, ast.Name) and comp.elt.id == x or el.kind in SOURCEISH:
-                self.refute(f, st, st, f"`{rel}` of the copy contains the source's own tasks (`{sh(comp.elt)}`), not their clone-map "
-                                       f"entries: the setter rewires the source WBS", 'receivers')
+                self.refute(f, st, st, f"`{rel}` of the copy is built from the source's linked tasks themselves (`{sh(comp.elt)}` for "
+                                       f"`{sh(comp)[:70]}`), not from clone-map lookups `map[x.id] ... if x.id in map`: links to selected "
+                                       f"tasks are not mapped to their copies (they are dropped or point into the source WBS)", 'receivers')
             elif match(f"{x}.clone($*a)", comp.elt):
                 self.refute(f, st, st, f"`{rel}` of the copy contains additional fresh clones (`{sh(comp.elt)}`) instead of the clone-map "
                                        f"entries: the copies are not the ones placed in the new WBS", 'receivers')
@@ -1263,7 +1264,16 @@ class CloneAnalysis:
                 self.refute(g, st, gen.iter, f"the roots of the copy are taken from {'/'.join(bad)}(roots): root order of the source is lost")
                 continue
             if not (isinstance(it, ast.Name) and it.id == roots_p):
-                self.undecided(g, st, gen.iter, "the roots of the copy do not range over the roots handed to __clone_tasks")
+                il = G.lab(it, cn, {})
+                if il.kind in ('MAPPEDS', 'MAP'):
+                    self.refute(g, st, st.value, f"the roots of the copy are taken from the entries of the clone map (`{G.short(it)[:50]}`), "
+                                                 f"not from the given roots: the map also holds tasks OUTSIDE the source WBS as themselves, "
+                                                 f"so a parentless outside task is moved into the copy (and root order is that of the map)")
+                elif il.kind in ('SRCS', 'MEMBERS', 'LINKS'):
+                    self.refute(g, st, st.value, f"the roots of the copy range over `{G.short(it)[:50]}`, not over exactly the roots handed "
+                                                 f"to __clone_tasks")
+                else:
+                    self.undecided(g, st, gen.iter, "the roots of the copy do not range over the roots handed to __clone_tasks")
                 continue
             if gen.ifs:
                 self.refute(g, st, st.value, "the roots of the copy are filtered: some of the given roots are cloned but never attached")
